@@ -1,0 +1,16 @@
+//go:build verif
+
+package verifapi
+
+import (
+	"github.com/tidwall/geojson"
+	"github.com/tidwall/tile38/internal/collection"
+)
+
+// GeoSearchRect returns the rectangle Collection.Within / Intersects search
+// the spatial index with for q (q.Rect(), widened for circles): minX, minY,
+// maxX, maxY.
+func GeoSearchRect(q geojson.Object) [4]float64 {
+	r := collection.VerifSearchRect(q)
+	return [4]float64{r.Min.X, r.Min.Y, r.Max.X, r.Max.Y}
+}
